@@ -869,6 +869,10 @@ class Interp:
             return True
         if hasattr(v, "sym_truth"):
             return v.sym_truth(self, node)
+        if isinstance(v, SOpaque) and self.config.get("permissive"):
+            if "__truth__" not in v.attrs:
+                v.attrs["__truth__"] = self.run.fresh_bool(f"truth({v.label})")
+            return v.attrs["__truth__"]
         raise Unsupported(f"truth value of {type(v).__name__}", node)
 
     def compare(self, op, l, r, node, frame=None):
